@@ -56,7 +56,7 @@ def shards(tier, seed):
     scen.append({"threads": [1, 1], "plan": "partial5", "bound": 2, "bad": True})
     out = [{"name": f"sched{i}", "kind": "sched", "scen": s, "budget": 45 if q else 600} for i, s in enumerate(scen)]
     for i in range(2 if q else 8):
-        out.append({"name": f"stress{i}", "kind": "stress", "runs": 250 if q else 6000, "p": [0.05, 0.15][i % 2]})
+        out.append({"name": f"stress{i}", "kind": "stress", "runs": 250 if q else 3000, "p": [0.05, 0.15][i % 2]})
     # write buffers of hundreds of KiB: messages of 20..130 KiB, the far end reading while the node writes, write plans
     # whose partial writes are tens of KiB long and whose soft errors fall between two large writes
     for i in range(2 if q else 6):
